@@ -326,15 +326,13 @@ void ThreadPool::threadProc(ThreadToken thread_token)
             }
 
             item = popOneTask();    //! 从任务队列中取出优先级最高的任务
+            if (item != nullptr)
+                d_->doing_tasks_token.insert(item->token);  //! 同一临界区内登记，防止任务在两个集合中都查不到
         }
 
         //! 后面就是去执行任务，不需要再加锁了
         if (item != nullptr) {
             RECORD_SCOPE();
-            {
-                std::lock_guard<std::mutex> lg(d_->lock);
-                d_->doing_tasks_token.insert(item->token);
-            }
 
             LogDbg("thread %u pick task %u", thread_token.id(), item->token.id());
 
